@@ -28,12 +28,14 @@ Oracle
   component is not followed, like lstat/readlink), must be realpath(base) or below it, unless the
   *input* denotes a configured passthrough entry.  A call that raises is a refusal, never an escape.
 """
+import importlib.util
 import itertools
 import os
 import shutil
 import signal
 import sys
 import tempfile
+import types
 
 from mc.runner import violation
 
@@ -112,6 +114,28 @@ for _n in CHAIN_LENGTHS:
 for _n in LOOP_LENGTHS:
     CHAIN_LAYOUTS[("loop", _n)] = len(LAYOUTS)
     LAYOUTS.append(("loop of %d links" % _n, chain_layout(_n, "lnk")))
+
+
+# Module state: every shard, every history case and every replay runs miasm.os_dep.common and
+# miasm.os_dep.linux.environment RE-EXECUTED FROM SOURCE into a private module object, so a recorded case never depends
+# on what the process converted before (module-level memo tables, counters ...).  History is explored on purpose,
+# by the "history" family below, and then it is part of the recorded case.
+_CODE = {}
+
+
+def fresh_module(name):
+    spec = importlib.util.find_spec(name)
+    if name not in _CODE:
+        with open(spec.origin) as fd:
+            _CODE[name] = compile(fd.read(), spec.origin, "exec")
+    mod = types.ModuleType(name)
+    mod.__file__ = spec.origin
+    mod.__package__ = name.rpartition(".")[0]
+    exec(_CODE[name], mod.__dict__)
+    handler = getattr(mod, "console_handler", None)
+    if handler is not None and hasattr(mod, "log"):
+        mod.log.removeHandler(handler)          # environment.py adds one handler to a global logger per execution
+    return mod
 
 
 class Hang(BaseException):
@@ -257,13 +281,14 @@ class Sandbox(object):
         for d in (os.path.join(self.base, "a"), os.path.join(self.base, "a", "a")):
             with open(os.path.join(d, "f"), "w") as fd:
                 fd.write("x")
-        for sibling in SIBLINGS:
+        for sibling in SIBLINGS + ("other_sb",):
             os.makedirs(os.path.join(self.work, sibling, "a"))
         self.layout = dict((name, target.replace("@WORK@", self.work)) for name, target in self.layout.items())
         for where in (self.base, os.path.join(self.base, "a")):
             for name, target in self.layout.items():
                 os.symlink(target, os.path.join(where, name))
         os.chdir(self.work)
+        self._common = self._env = None
         self.old_limit = sys.getrecursionlimit()
         sys.setrecursionlimit(len(_stack_depth()) + RECURSION_LIMIT)
         self.old_handler = signal.signal(signal.SIGALRM, _on_alarm)
@@ -281,6 +306,25 @@ class Sandbox(object):
         finally:
             shutil.rmtree(self.root, ignore_errors=True)
         return False
+
+    @property
+    def common(self):
+        if self._common is None:
+            self._common = fresh_module("miasm.os_dep.common")
+        return self._common
+
+    @property
+    def env(self):
+        if self._env is None:
+            self._env = fresh_module("miasm.os_dep.linux.environment")
+        return self._env
+
+    def set_base(self, name):
+        """The sandbox base is now <work>/<name> (history family: BASE_SB_PATH / base_path re-configured)."""
+        self.base = os.path.join(self.work, name)
+        self.base_real = os.path.realpath(self.base)
+        self.base_parts = self.base.split(os.sep)
+        self.cache = {}
 
     # -- oracle ------------------------------------------------------------------------------
     def _inside(self, p):
@@ -307,6 +351,8 @@ class Sandbox(object):
                     kind = "relative-result"          # a guest path handed back as if it were a host path
                 elif os.path.join(self.work, r).split(os.sep)[:len(self.base_parts)] == self.base_parts:
                     kind = "dotdot-above-base"        # base/../..: '..' components survive the mapping
+                elif not os.path.isabs(r):
+                    kind = "below-another-base"       # a relative result that is not below the current base
                 else:
                     kind = "absolute-outside"
             elif not self._inside(phys):
@@ -428,7 +474,7 @@ def sbpath_sig(api, path, sep, kind):
 
 
 def check_unix(sb, path, tally, layout_idx):
-    from miasm.os_dep.common import unix_to_sbpath
+    unix_to_sbpath = sb.common.unix_to_sbpath
     api = "unix_to_sbpath"
     try:
         res = guarded(unix_to_sbpath, path)
@@ -448,7 +494,7 @@ def check_unix(sb, path, tally, layout_idx):
 
 
 def check_windows(sb, path, sep, drive, tally, layout_idx):
-    from miasm.os_dep.common import windows_to_sbpath
+    windows_to_sbpath = sb.common.windows_to_sbpath
     api = "windows_to_sbpath"
     try:
         res = guarded(windows_to_sbpath, path)
@@ -468,11 +514,152 @@ def check_windows(sb, path, sep, drive, tally, layout_idx):
         {"api": "windows_to_sbpath", "layout": layout_idx, "path": path, "sep": sep, "drive": drive}))
 
 
-def make_fs(pt):
-    from miasm.os_dep.linux.environment import FileSystem
-    fs = FileSystem(BASE, None)
+def make_fs(sb, pt, base=BASE):
+    fs = sb.env.FileSystem(base, None)
     fs.passthrough = list(pt)
     return fs
+
+
+# ------------------------------------------------------------------------------------------------
+# history family: the same guest path converted twice, with a change of the sandbox in between
+
+HISTORY_COMPONENTS = ("a", "lnk", "..")
+# name -> (class used in the signature, prepare, change);  steps: ("dir->link", name, target) replaces directory
+# file_sb/<name> by a link, ("retarget", name, target) re-points a link, ("link->dir", name) the reverse,
+# ("base", new base directory name).  Stage 1 is layout 0: file_sb/a is a directory, file_sb/lnk -> "a".
+HISTORY_CHANGES = [
+    ("a: directory, then link to ..", "dir->outside-link", None, ("dir->link", "a", "..")),
+    ("a: directory, then link to /etc", "dir->outside-link", None, ("dir->link", "a", "/etc")),
+    ("a: directory, then link to ../file_sb_backup", "dir->outside-link", None, ("dir->link", "a", "../file_sb_backup")),
+    ("lnk: ->a, then ->..", "link-retargeted", None, ("retarget", "lnk", "..")),
+    ("lnk: ->a, then ->/etc", "link-retargeted", None, ("retarget", "lnk", "/etc")),
+    ("lnk: ->a, then ->../file_sb2", "link-retargeted", None, ("retarget", "lnk", "../file_sb2")),
+    ("a: link to .., then directory", "outside-link->dir", ("dir->link", "a", ".."), ("link->dir", "a")),
+    ("base: file_sb, then file_sb2", "base-changed", None, ("base", "file_sb2")),
+    ("base: file_sb, then other_sb", "base-changed", None, ("base", "other_sb")),
+]
+# API variants: (function, separator, drive, follow_link, bytes, how a base change reaches a FileSystem)
+HISTORY_APIS = [("unix_to_sbpath", "/", "", None, False, None),
+                ("windows_to_sbpath", "\\", "", None, False, None),
+                ("windows_to_sbpath", "\\", "C:", None, False, None),
+                ("windows_to_sbpath", "/", "", None, False, None)]
+HISTORY_APIS += [("resolve_path", "/", "", follow, as_bytes, how)
+                 for follow in (True, False) for as_bytes in (False, True) for how in ("new-instance", "same-instance")]
+
+
+def history_strings(api, maxc):
+    if api[0] == "windows_to_sbpath":
+        return windows_strings(HISTORY_COMPONENTS, maxc, api[1], api[2])
+    return unix_strings(HISTORY_COMPONENTS, maxc)
+
+
+def apply_step(sb, step):
+    if step is None:
+        return
+    if step[0] == "dir->link":
+        shutil.rmtree(os.path.join(sb.base, step[1]))
+        os.symlink(step[2], os.path.join(sb.base, step[1]))
+    elif step[0] == "retarget":
+        os.unlink(os.path.join(sb.base, step[1]))
+        os.symlink(step[2], os.path.join(sb.base, step[1]))
+    elif step[0] == "link->dir":
+        os.unlink(os.path.join(sb.base, step[1]))
+        os.makedirs(os.path.join(sb.base, step[1], "a"))
+    elif step[0] == "base":
+        sb.set_base(step[1])
+    sb.cache = {}
+
+
+def convert(fn):
+    try:
+        return ("returned", guarded(fn))
+    except Hang:
+        return ("hang", None)
+    except RecursionError:
+        return ("refused", "RecursionError")
+    except Exception as e:
+        return ("refused", type(e).__name__)
+
+
+def check_history(api_idx, change_idx, path, tally):
+    api = HISTORY_APIS[api_idx]
+    fn, sep, drive, follow, as_bytes, how = api
+    cname, cclass, prepare, change = HISTORY_CHANGES[change_idx]
+    case = {"api": "history", "api_idx": api_idx, "change_idx": change_idx, "path": path}
+    label = fn + ("" if follow is None else "[%s]" % ("follow" if follow else "nofollow"))
+    arg = path.encode() if as_bytes else path
+    with Sandbox(0) as sb:
+        tally.tmp_root = sb.root
+        apply_step(sb, prepare)
+        base_name = BASE
+
+        def make_call(common, fs):
+            if fn == "resolve_path":
+                return lambda: fs.resolve_path(arg, follow_link=follow)
+            return lambda: getattr(common, fn)(arg)
+
+        fs = make_fs(sb, []) if fn == "resolve_path" else None
+        outs = [convert(make_call(sb.common, fs))]
+        apply_step(sb, change)
+        if change[0] == "base":
+            base_name = change[1]
+            sb.common.BASE_SB_PATH = base_name
+            if fs is not None:
+                if how == "same-instance":
+                    fs.base_path = base_name
+                else:
+                    fs = make_fs(sb, [], base_name)       # same module state, another FileSystem
+        outs.append(convert(make_call(sb.common, fs)))
+        # reference: the same conversion from a module state that has never converted anything
+        fresh_common = fresh_module("miasm.os_dep.common")
+        fresh_common.BASE_SB_PATH = base_name
+        fresh_fs = None
+        if fn == "resolve_path":
+            fresh_fs = fresh_module("miasm.os_dep.linux.environment").FileSystem(base_name, None)
+        fresh = convert(make_call(fresh_common, fresh_fs))
+
+        desc = "%s, %s(%r) converted twice" % (cname, label, arg)
+        kinds = []
+        for k, (what, res) in enumerate(outs):
+            if what == "hang":
+                tally.outcome(label, "history:hang")
+                tally.add(violation("%s:history[%s]:call%d:hang" % (label, cclass, k + 1), desc + ": call %d hung" % (k + 1), case))
+                kinds.append("hang")
+                continue
+            if what == "refused":
+                kinds.append("refused")
+                continue
+            tally.results.add(res)
+            # call 1 is judged in the world before the change, call 2 in the current one
+            kind = sb.verdict(res, follow is False, fn != "resolve_path") if k == 1 else None
+            kinds.append("inside" if kind is None else "escape:" + kind)
+            if kind is not None:
+                tally.add(violation(
+                    "%s:history[%s]:call2:%s" % (label, cclass, kind),
+                    desc + ": the second call returned %r, which the host resolves outside the current base %r "
+                    "(first call: %r; a fresh module state gives %r)" % (res, sb.base, outs[0], fresh), case))
+        if outs[1] != fresh and outs[1][0] != "hang":
+            kinds.append("stale")
+            tally.add(violation(
+                "%s:history[%s]:call2:differs-from-fresh-state" % (label, cclass),
+                desc + ": the second call gave %r, a fresh module state gives %r (first call: %r)" % (outs[1], fresh, outs[0]),
+                case))
+        tally.outcome(label, "history:" + "/".join(kinds[1:]))
+        tally.outcome(label, "history-first-call:" + kinds[0])
+    return outs[0] != outs[1]
+
+
+def _history_shard(args):
+    api_idx, change_idx, maxc = args
+    tally = Tally()
+    strings = history_strings(HISTORY_APIS[api_idx], maxc)
+    changed = 0
+    for s in strings:
+        changed += 1 if check_history(api_idx, change_idx, s, tally) else 0
+    sample = {"api": "history:" + HISTORY_APIS[api_idx][0], "change": HISTORY_CHANGES[change_idx][0], "path": strings[-1]}
+    return {"n": tally.n, "nt": len(strings), "strings": len(strings), "outcomes": tally.outcomes, "vs": tally.vs,
+            "per_sig": tally.per_sig, "sample": sample, "distinct_results": len(tally.results), "kind": "history",
+            "answer_changed": changed}
 
 
 # ------------------------------------------------------------------------------------------------
@@ -502,7 +689,7 @@ def _shard(args):
     nt = 0
     with Sandbox(layout_idx) as sb:
         tally.tmp_root = sb.root
-        fs = make_fs(pt) if kind[0].startswith("resolve") else None
+        fs = make_fs(sb, pt) if kind[0].startswith("resolve") else None
         for s in mine:
             if kind[0].startswith("resolve"):
                 check_resolve(sb, fs, pt, s, tally, layout_idx)
@@ -561,6 +748,12 @@ def run(ctx):
         shards += [(("unix", "chain"), li, [], mc, maxc_pt, 0, 1)]
         shards += [(("windows", "\\", "", "chain"), li, [], mc, maxc_pt, 0, 1)]
     res = ctx.pmap(_shard, shards)
+    maxc_hist = 2 if ctx.quick else 3
+    # the two ways a base change reaches a FileSystem only differ for the base changes
+    hres = ctx.pmap(_history_shard, [(ai, ci, maxc_hist) for ai in range(len(HISTORY_APIS))
+                                     for ci in range(len(HISTORY_CHANGES))
+                                     if HISTORY_CHANGES[ci][3][0] == "base" or HISTORY_APIS[ai][5] != "same-instance"])
+    res = res + hres
 
     outcomes = {}
     per_sig = {}
@@ -577,10 +770,11 @@ def run(ctx):
             per_sig[k] = per_sig.get(k, 0) + v
         all_vs += r["vs"]
     # smallest witness first: the runner prints the first record of every signature
-    all_vs.sort(key=lambda v: (len(v["case"]["path"]), v["case"]["layout"], v["case"]["path"]))
+    all_vs.sort(key=lambda v: (len(v["case"]["path"]), v["case"].get("layout", -1), v["case"]["path"],
+                               v["case"].get("api_idx", 0), v["case"].get("change_idx", 0)))
     ctx.add_violations(all_vs)
     refused = sum(v for k, v in outcomes.items() if "|refused:" in k)
-    escapes = sum(v for k, v in outcomes.items() if "|escape:" in k)
+    escapes = sum(v for k, v in outcomes.items() if "escape:" in k)
     inside = sum(v for k, v in outcomes.items() if k.endswith("|inside"))
     allowed = sum(v for k, v in outcomes.items() if k.endswith("|passthrough-allowed"))
     samples = [r["sample"] for r in res if r["sample"]]
@@ -593,6 +787,8 @@ def run(ctx):
         "bounds": {"max_components": maxc, "max_components_main_lattice_with_passthrough_configured": maxc_main_pt, "components": list(COMPONENTS), "max_components_passthrough_lattice": maxc_pt,
                    "passthrough_components": list(PT_COMPONENTS), "layouts": [l[0] for l in LAYOUTS[:nlay]],
                    "sibling_layouts": [LAYOUTS[i][0] for i in SIBLING_LAYOUTS], "max_components_sibling_layouts": maxc_sib,
+                   "history_changes": [c[0] for c in HISTORY_CHANGES], "history_components": list(HISTORY_COMPONENTS),
+                   "history_max_components": maxc_hist, "history_api_variants": len(HISTORY_APIS),
                    "chain_lengths": lengths, "chain_ends": CHAIN_ENDS, "loop_lengths": LOOP_LENGTHS,
                    "max_components_chain_layouts": maxc_chain, "chain_lengths_at_max_components": list(deep) if not ctx.quick else lengths,
                    "max_components_other_chain_lengths": 2, "max_components_loop_layouts": maxc_loop,
@@ -607,6 +803,8 @@ def run(ctx):
         "evaluations_per_api": per_api,
         "outcomes": dict(sorted(outcomes.items())),
         "distinct_outcomes": len(outcomes),
+        "history_cases": sum(r["strings"] for r in hres),
+        "history_cases_where_the_answer_changes": sum(r["answer_changed"] for r in hres),
         "calls_inside": inside,
         "calls_refused": refused,
         "calls_passthrough_allowed": allowed,
@@ -618,12 +816,15 @@ def run(ctx):
 
 def replay(case):
     tally = Tally()
+    if case["api"] == "history":
+        check_history(case["api_idx"], case["change_idx"], case["path"], tally)
+        return tally.vs
     li = case["layout"]
     with Sandbox(li) as sb:
         tally.tmp_root = sb.root
         if case["api"] == "resolve_path":
             pt = list(case.get("pt") or [])
-            check_resolve(sb, make_fs(pt), pt, case["path"], tally, li)
+            check_resolve(sb, make_fs(sb, pt), pt, case["path"], tally, li)
         elif case["api"] == "unix_to_sbpath":
             check_unix(sb, case["path"], tally, li)
         elif case["api"] == "windows_to_sbpath":
